@@ -118,6 +118,26 @@ End Data.
 Definition case_code_F := case_code (V := float) PrimFloat.eqb same_bits 0%float 1%float.
 Definition case_code_Z := case_code (V := Z) Z.eqb Z.eqb 0 1.
 
+(* ---- Cartesian.transform_lonlats: the model with the implementation's own cos / sin values as oracle table ----
+   table rows (argument, cos, sin), looked up by the bits of the argument the MODEL computes (lon * deg2rad) *)
+Definition trig_tab := list (float * (float * float)).
+Fixpoint trig_lookup (tab : trig_tab) (x : float) : float * float :=
+  match tab with
+  | [] => (PrimFloat.nan, PrimFloat.nan)
+  | (a, cs) :: r => if same_bits a x then cs else trig_lookup r x
+  end.
+Definition R_earth : float := 6370997%float.
+Definition deg2rad64 : float := 0x1.1df46a2529d39p-6%float.        (* np.pi / 180 *)
+Definition xyz_same (p q : xyzF) : bool :=
+  let '(x, y, z) := p in let '(u, v, w) := q in same_bits x u && same_bits y v && same_bits z w.
+(* (trig table, valid source lon/lat, their observed xyz) *)
+Definition xyz_case := (trig_tab * list (float * float) * list xyzF)%type.
+Definition xyz_code (c : xyz_case) : Z :=
+  let '(tab, lls, obs) := c in
+  let model := map (fun ll => transform_lonlat F64 (fun a => fst (trig_lookup tab a)) (fun a => snd (trig_lookup tab a))
+                                               R_earth deg2rad64 (fst ll) (snd ll)) lls in
+  if list_eqb xyz_same model obs then 0 else 1.
+
 (* (case number, code) of every case with a non-zero code *)
 Fixpoint bad_codes_from {A} (f : A -> Z) (i : Z) (l : list A) : list (Z * Z) :=
   match l with
